@@ -46,6 +46,8 @@ def length(e):
     t = e[0]
     if t == 'nsmin':
         return 1
+    if t == '*c':           # ['*c', e, [c0, c1, ...]]: scalar affine function e times a constant column
+        return len(e[2])
     if t == 'v':
         return len(COLS[e[1]])
     if t in ('i', 'c', 'dot', 'sum', 'vmax'):
@@ -74,6 +76,8 @@ def occurs(e):
         return set()
     if t == 'nsmin':
         return occurs(e[2]) | occurs(e[3])
+    if t == '*c':
+        return occurs(e[1])
     if t == '*':
         return set() if e[1] == 0 else occurs(e[2])
     if t in ('m*', 'sm*', 'dot'):
@@ -90,6 +94,8 @@ def is_affine(e):
         return True
     if t in ('max', 'vmax', 'abs', 'nsmin'):
         return False
+    if t == '*c':
+        return is_affine(e[1])
     if t in ('*', 'm*', 'sm*', 'dot'):
         return is_affine(e[2])
     return all(is_affine(a) for a in e[1:])
@@ -129,6 +135,11 @@ def ev(e, pt, homog=False):
     t = e[0]
     if t == 'nsmin':
         return ev(desugar(e), pt, homog)
+    if t == '*c':
+        a = ev(e[1], pt, homog)
+        if len(a) != 1:
+            raise ValueError('*c needs a scalar function')
+        return [a[0] * _F(c) for c in e[2]]
     if t == 'v':
         return [_F(pt[j]) for j in COLS[e[1]]]
     if t == 'i':
@@ -208,6 +219,13 @@ def lin(e, ctx):
     t = e[0]
     if t == 'nsmin':
         return lin(desugar(e), ctx)
+    if t == '*c':
+        if not is_affine(e[1]):
+            raise ValueError('column multiple of a non-affine expression')
+        a = lin(e[1], ctx)
+        if len(a) != 1:
+            raise ValueError('*c needs a scalar function')
+        return [_rscale(a[0], _F(c)) for c in e[2]]
     if t == 'v':
         return [{j: Fr(1)} for j in COLS[e[1]]]
     if t == 'i':
